@@ -58,6 +58,7 @@ type Model struct {
 	rfOnStack map[*ssa.Function]bool
 	rpMemo map[string][]map[string]Lit
 	justDepth int
+	awaitedMemo map[ssa.Instruction]bool
 	ownerMemo map[*ssa.Function]bool
 	notifyMemo map[*ssa.Function]bool
 	edgeHook func(l Lit, flag int) (int, bool)
